@@ -388,4 +388,15 @@ example : ∃ s, Reachable 3 s ∧ s.returned = some 0 ∧ quiescent s ∧ s.pri
 /-- the claim is one atomic compare-and-swap (regenerated from the source on this run): the model's `claim` step -/
 theorem C09_source_claim : TV.Gen.Shapes.probe_claim = ["claimed.CompareAndSwap(false, true)"] := by decide
 
+open TV.Gen.Shapes in
+/-- direct and relay (`turn:`) candidates are raced in two *sequential* phases of the same procedure: the relay phase is entered only
+after the direct phase has returned an error - which `probeWithTransport` does only once every direct dial has finished (the
+"all done" case of `C09_gives_up_only_without_connection`) - so the theorems above apply to each phase on its own and no direct dial
+is still running when a relay candidate wins -/
+theorem C09_source_phases :
+    probe_phases = ["directCandidates, p.transport", "turnCandidates, p.transport"] ∧
+    probe_direct_phase = ["!p.config.TurnOnly && len(directCandidates) > 0"] ∧
+    probe_turn_phase = ["len(turnCandidates) > 0"] ∧
+    probe_phase_errs = ["len(turnCandidates) > 0 ; directErr != nil", "directErr != nil"] := by decide
+
 end TV.C09
